@@ -465,6 +465,21 @@ func checkCase(c *vk.Ctx, data map[string][]byte, aps map[string]*ap.AP, srcs, b
 				}
 			}
 			if srcTot == 0 {
+				// The source has nothing in this column (all its values are zero by
+				// construction of the inputs): there is nothing to scale, and the result
+				// must be minus the base.
+				var baseTot int64
+				for jj, bt := range baseC.types {
+					if bt.Type == t.Type {
+						f := unitFactor[bt.Unit] / unitFactor[t.Unit]
+						for _, v := range baseC.stacks {
+							baseTot += v[jj] * f
+						}
+					}
+				}
+				if resTot != -baseTot {
+					c.Violationf("normalize/zero-source-column", w, "type %s: the source total is 0, the base total %d, but the result total is %d (expected %d)", t.Type, baseTot, resTot, -baseTot)
+				}
 				continue
 			}
 			lim := int64(nsrc)/2 + 1
